@@ -45,10 +45,10 @@ def project(events: list[tuple], n_threads: int = 2) -> list[tuple[int, str]]:
             elif obj == "resume" and kind in ("wait_imm", "wait_block", "wait_woken", "wait_timeout"):
                 a = {"wait_imm": "bWaitImm", "wait_block": "bWaitBlock", "wait_woken": "bWaitWoken",
                      "wait_timeout": "bWaitTimeout"}[kind] + f" {t}"
-            elif kind == "acquire":
+            elif kind == "acquire" and obj == "resume_lock":
                 holding[t] = True
                 a = f"bAcquire {t}"
-            elif kind == "release":
+            elif kind == "release" and obj == "resume_lock":
                 holding[t] = False
                 a = f"bRelease {t}"
             elif kind == "loop_sleep":
@@ -80,9 +80,9 @@ def project(events: list[tuple], n_threads: int = 2) -> list[tuple[int, str]]:
                 a = "cTryPause"
             elif kind == "try_pause_ret":
                 a = f"cTryPauseRet {int(bool(val))}"
-            elif kind == "acquire":
+            elif kind == "acquire" and obj == "resume_lock":
                 a = "cAcquire"
-            elif kind == "release":
+            elif kind == "release" and obj == "resume_lock":
                 a = "cRelease"
             elif kind == "clear" and obj == "resume":
                 a = "cClearResume"
